@@ -31,6 +31,11 @@ func (pass *SanitizeEnumMemberNames) sanitizeEnumMember(member ast.EnumValue) as
 		member.Name = "None"
 	}
 
+	// nothing to inspect: members made of symbols only ("=", "<", ...) end up without a name
+	if member.Name == "" {
+		return member
+	}
+
 	if member.Name[0] == '-' {
 		member.Name = tools.UpperCamelCase(fmt.Sprintf("negative%s", member.Name[1:]))
 	}
